@@ -137,12 +137,17 @@ for _p, _u in sorted(_UNITS.items()):
     for _x in _u.get('verus', []):
         if _x not in _all_verus and _x in VERUS:
             _all_verus.append(_x)
-_UNITS.setdefault('C16', {}).setdefault('verus', [])
-_UNITS['C16']['verus'] = [x for x in _all_verus]
-_UNITS.setdefault('C19', {}).setdefault('verus', [])
-_UNITS['C19']['verus'] = [x for x in _all_verus if VERUS[x].get('w32')]
-_UNITS['C19']['verus_w32_quick'] = [x for x in ('int_prim', 'int_add', 'int_mul', 'int_mul_simple', 'int_shift',
-                                                 'int_div_word') if x in VERUS and VERUS[x].get('w32')]
+_KERNELS = ('int_prim', 'int_add', 'int_mul', 'int_mul_simple', 'int_shift', 'int_div_word')
+_c16_quick = [x for x in _all_verus if x.endswith(('_panic', '_zero', '_inf')) or x in _KERNELS or x in (
+    'int_div_simple', 'int_add_ops', 'int_div_ops', 'float_round', 'float_repr_round', 'ratio_reduce', 'ratio_ops')]
+_UNITS.setdefault('C16', {})
+_UNITS['C16']['verus'] = _c16_quick
+_UNITS['C16']['verus_thorough'] = [x for x in _all_verus if x not in _c16_quick]
+_w32 = [x for x in _all_verus if VERUS[x].get('w32')]
+_UNITS.setdefault('C19', {})
+_UNITS['C19']['verus'] = [x for x in _KERNELS if x in _w32]
+_UNITS['C19']['verus_thorough'] = [x for x in _w32 if x not in _KERNELS]
+_UNITS['C19']['verus_w32_quick'] = [x for x in _KERNELS if x in _w32]
 
 for _p, _u in _UNITS.items():
     if _p in PROPS:
